@@ -24,9 +24,9 @@ func init() {
 			"under every change of the other entries; monotone in p; p=1/absent always, p=0 never; a non-firing entry reports props:null and the response equals the one with p=0 there. " +
 			"Frequency clause: real generator, all seeds 0..4095 (thorough 0..65535) x 3 positions x p in {0.1,0.25,0.5,0.9}: |freq-p|<=0.03. " +
 			"distinct_nontrivial = distinct (script, firing pattern, list shape) with at least one enabled bias.",
-		Assume: []string{"probability menu {0,0.25,1}; the draw menu brackets 0.25 from both sides; frequency is swept over a finite seed range"},
-		Run:    c08Run,
-		Check:  c08Check,
+		Assume:   []string{"probability menu {0,0.25,1}; the draw menu brackets 0.25 from both sides; frequency is swept over a finite seed range"},
+		Run:      c08Run,
+		Check:    c08Check,
 		Finalize: c08Finalize,
 	})
 }
